@@ -1785,3 +1785,139 @@ def c15_injectors():
         return it, r'Previous #\[repeat\] instruction must be terminated with #\[stop_repeat\]'
 
     return inj
+
+
+# ---------------------------------------------------------------------------------------------
+# C01: structured struct cases whose designated mapping is known by construction
+# ---------------------------------------------------------------------------------------------
+def mattr(name, member=None, expr=None, ded=None, braced=False):
+    """a member mapping instruction with structured arguments"""
+    if member is not None and expr is not None:
+        args = '%s, %s' % (member, ('{ %s }' % expr) if braced else expr)
+    elif member is not None:
+        args = str(member)
+    elif expr is not None:
+        args = ('{ %s }' % expr) if braced else expr
+    else:
+        args = ''
+    a = Attr(name, args, ded=ded)
+    a.member, a.expr, a.cast = member, expr, None
+    return a
+
+
+def gattr(name, default=None, ded=None):
+    a = Attr(name, ('{ %s }' % default) if default is not None else ('' if ded else None), o2o=(name != 'ghost'), ded=ded)
+    a.default = default
+    return a
+
+
+def astype_attr(ty, member=None, ded=None):
+    a = Attr('as_type', ('%s, %s' % (member, ty)) if member is not None else ty, ded=ded)
+    a.member, a.expr, a.cast = member, None, ty
+    return a
+
+
+C01_EXPRS = ['~.clone()', '~ + 1', 'f(~, @.z)', '@.k', 'g(&~)', '~.to_string()', '-~']
+
+
+def c01_cases(rng, n, index_rename_on_tuple_dest=False):
+    out = []
+    kinds = BASIC + [try_name(b) for b in BASIC]
+    for i in range(n):
+        shape = rng.choice(['named', 'named', 'tuple', 'tuple', 'unit'])
+        named = shape == 'named'
+        cps = rng.sample(['A', 'B'], rng.choice([1, 1, 2]))
+        attrs = []
+        hints = {}
+        for cp in cps:
+            hint = rng.choice(['', '', '', ' as {}', ' as ()', ' as Unit']) if shape != 'unit' else rng.choice(['', ' as Unit', ' as {}', ' as ()'])
+            bare = rng.random() < 0.1 and shape != 'unit'
+            cpt = '(i32, i16, u8)' if bare else cp
+            if bare:
+                hint = ''
+            hints[cpt] = hint.strip()
+            taken = set()
+            for nm in rng.sample(TRAIT_NAMES, rng.choice([1, 2, 3, 4])):
+                ks = set(kinds_of(nm))
+                if ks & taken:
+                    continue
+                taken |= ks
+                params = ''
+                attrs.append(trait_attr(nm, cpt, hint, 'Er', params))
+        all_cps = sorted(hints)
+        # struct-level ghosts (destination-side extra fields)
+        dest_named = {cp: (h == 'as {}' or (h == '' and named and not cp.startswith('('))) for cp, h in hints.items()}
+        nf = 0 if shape == 'unit' else rng.randrange(1, 5)
+        fields = []
+        for j in range(nf):
+            fa = []
+            for _ in range(rng.choice([0, 0, 1, 1, 1, 2])):
+                nt = [c for c in all_cps if not c.startswith('(')]
+                ded = rng.choice(nt) if (nt and rng.random() < 0.25) else None
+                r = rng.random()
+                # member name for the counterpart side: ident for named destinations, index for tuple ones
+                tgt_cp = ded or all_cps[0]
+                use_index = not dest_named.get(tgt_cp, named)
+                if use_index and not index_rename_on_tuple_dest:
+                    member = None
+                else:
+                    member = ('n%d' % j) if not use_index else rng.randrange(0, 4)
+                if r < 0.45:
+                    nm = rng.choice(MEMBER_MAP_NAMES)
+                    form = rng.random()
+                    if form < 0.35 and member is not None:
+                        fa.append(mattr(nm, member=member, ded=ded))
+                    elif form < 0.7:
+                        fa.append(mattr(nm, expr=rng.choice(C01_EXPRS), ded=ded, braced=rng.random() < 0.5))
+                    elif member is not None:
+                        fa.append(mattr(nm, member=member, expr=rng.choice(C01_EXPRS), ded=ded, braced=rng.random() < 0.5))
+                elif r < 0.65:
+                    fa.append(gattr(rng.choice(GHOSTS), default=rng.choice(['0', 'd%d()' % j, '@.x + 1']), ded=ded))
+                elif r < 0.72:
+                    fa.append(gattr(rng.choice(GHOSTS), default=None, ded=ded))
+                elif r < 0.9:
+                    fa.append(astype_attr(rng.choice(['i64', 'f32']), member=member if rng.random() < 0.5 else None, ded=ded))
+            fields.append(Field(('a%d' % j) if named else None, rng.choice(['i32', 'u8']), fa))
+        # tuple struct -> named destination needs names: give every live field one
+        gh = []
+        if rng.random() < 0.35:
+            for cp in all_cps:
+                if rng.random() < 0.6:
+                    if dest_named[cp]:
+                        entries = ['gx: { 7 }', 'gx: { @.q }, gy: { 8 }']
+                    else:
+                        entries = ['%d: { 7 }' % (nf + 0)]
+                    g = Attr(rng.choice(['ghosts', 'ghosts_owned', 'ghosts_ref']), rng.choice(entries), ded=cp if (rng.random() < 0.6 and not cp.startswith('(')) else None)
+                    gh.append(g)
+        attrs += gh
+        rng.shuffle(attrs)
+        it = Item('struct', 'S', shape, '', attrs, fields, {'gen': 'c01', 'hints': hints, 'index_rename_cell': index_rename_on_tuple_dest})
+        out.append(it)
+    return out
+
+
+def c01_index_perm_cases(rng, n):
+    """index renames that are a permutation of the positions, under tuple-shaped destinations (finding F-01a's cell)"""
+    out = []
+    for i in range(n):
+        k = rng.randrange(2, 5)
+        perm = list(range(k))
+        rng.shuffle(perm)
+        named = rng.random() < 0.5
+        hint = ' as ()' if named else rng.choice(['', ' as ()'])
+        attrs = [trait_attr(nm, 'D', hint, 'Er') for nm in rng.sample(['map', 'into_existing', 'try_map', 'try_into_existing', 'owned_into', 'from_ref'], 3)
+                 ]
+        seen = set()
+        attrs2 = []
+        for a in attrs:
+            ks = set(kinds_of(a.name))
+            if ks & seen:
+                continue
+            seen |= ks
+            attrs2.append(a)
+        fields = [Field(('a%d' % j) if named else None, 'i32', [mattr(rng.choice(['map', 'into', 'from', 'into_existing']), member=perm[j])]) for j in range(k)]
+        # every flavour must see an instruction: use `map` + `into_existing` forms only when they cover the requested kinds; simplest: map on all
+        for f in fields:
+            f.attrs = [mattr('map', member=f.attrs[0].member)]
+        out.append(Item('struct', 'S', 'named' if named else 'tuple', '', attrs2, fields, {'gen': 'c01_index_perm', 'hints': {'D': hint.strip()}}))
+    return out
